@@ -10,6 +10,21 @@ CLAIMS = {
     text='TLC enumerates every (heap state, action, aliasing choice) transition of the bounded vector machine over three scalar/dtype profiles and checks frame, stale-output independence and returns-target as action properties; a layer-C model of the lincomb decision tree is checked against the reference for every (aliasing, scalar class, regime) cell. Every exported transition is replayed on real ODL elements under concretisations that straddle the 100- and 50000-entry switches, all dtypes, C/F/strided layouts and tensor/discretised/product/nested spaces (NaN-prefilled outputs), and every real call, plus seeded random call sequences on live objects, is validated by TLC against the trace specification.',
     note='Trusted: TLC, the snapping projection (tolerance 2^-20/D vs lattice spacing 1/D), periodic tiling for long vectors (verified on the whole array). Bounded: 3 objects, 2-6 entry abstract vectors, scalar alphabets of 5-6 values per profile. Integer true division outside the claim.',
     ref='4/C01'),
+ 'C04': dict(
+    technique='TLA+ expression stack machine (OpMachine) with reference semantics OpSem; TLC exhaustive + simulated program export replayed through the real Python overloads; layer-C model of class selection / scalar merging (RewriteImpl) refined against the table; TLC trace validation (Trace_OpMachine)',
+    text='A behaviour of OpMachine is a well-typed operator program. TLC enumerates all programs with <= 3 construction steps over 12 leaf kinds and 16 combinators (real, array-weighted real, complex), checks sanity invariants of the reference (structural linearity implies additivity, adjoint identity, stencil derivative) and that the layer-C transcription of the overload rules evaluates to the documented table (it exhibits the pinned tree\'s (A*a)*B defect as a counter-example when the slip is switched on), exports every program with Eval at probe points, domain, range and linearity, plus -simulate behaviours up to 7 steps. Each program is rebuilt from real ODL operators via +,-,*,/,** and evaluated out-of-place and in-place (NaN-prefilled out) on 2 and 120 entries; every real evaluation is re-evaluated by TLC from the logged program.',
+    note='Trusted: TLC, snapping projection. Bounded: programs <= 3 steps exhaustively (quick) / medium alphabets (thorough), deeper ones sampled by TLC simulation; spaces F^2 and its 60-fold tiling. Unsupported-by-design expressions (scalar + non-Functional scalar-valued operator) are named by OpSem!Supported and not demanded.',
+    ref='4/C04'),
+ 'C05': dict(
+    technique='TLA+ reference adjoint N = Gd^-1 M^H Gr over OpMachine programs (TLC export replayed on real expr.adjoint) + TLC trace validation of full matrices of every built-in linear operator recipe (Trace_Adjoint: entry-wise identity = all x,y)',
+    text='(A) every linear OpMachine program (weighted and complex profiles) is rebuilt in ODL; expr.adjoint is applied to each range basis vector and compared with the reference adjoint column computed by TLC; adjoint domain/range and adjoint.adjoint are checked; observations re-validated by TLC. (B) for ~500 recipes of built-in linear operators x options (weightings, complex dtypes, nodes on boundary, 3 methods x 10 paddings, product-space blocks, sampling, flattening, Fourier, wavelets) the full matrices of A, A.adjoint, A.adjoint.adjoint and the Gram weights are recorded from the real code and TLC decides Gd[i]N[i][j] = conj(M[j][i])Gr[j] entry-wise, i.e. the adjoint identity for all x and y (exact rationals where entries are rational, 2^-8 quantisation otherwise; real-part form for real<->complex operators).',
+    note='Trusted: TLC; Gram matrices diagonal in the canonical basis. Operators documented as approximate adjoints are exempt; operators that raise NotImplementedError for .adjoint are exempt. Open findings are listed in known_findings.json (weighted MatrixOperator, nodes_on_bdry difference operators, Fourier adjoints, ...).',
+    ref='4/C05'),
+ 'C06': dict(
+    technique='TLA+ directional derivative defined from values by the exact 5-point stencil over OpMachine programs (TLC export replayed on real expr.derivative) + relational central-difference convergence of built-in derivatives decided by TLC (Trace_Derivative)',
+    text='(A) for every OpMachine program of polynomial degree <= 4 TLC computes the directional derivative from Eval only (exact central-difference stencil, no chain rule) and exports it; the real expr.derivative(x)(d) is snapped and compared, derivative(x) must be linear with the right spaces, linear programs are their own derivative; observations re-validated by TLC. (B) ~110 recipes of built-in operators with closed-form derivatives (power, norm, dist, modulus, pointwise norm, ufunc operators, functionals, product-space blocks, affine finite differences): central differences of the real operator at h, h/2, h/4 against derivative(x)(d); TLC decides the O(h^2) convergence relation.',
+    note='Trusted: TLC. Exact clause only for polynomial programs (degree <= 4); non-polynomial operators are relational-only (numbers from the implementation). Complex non-holomorphic programs and deformation operators are outside the claim.',
+    ref='4/C06'),
 }
 
 def main():
